@@ -67,6 +67,8 @@ def C03(rep, prog, tier):
             mcsops.preprocess_flow(rep, ex, be, "W")
             mcsops.w_rec(rep, ex, be)
             mcsops.w_entry(rep, ex, be, strict=True, extended=False)
+            if name == "z3":
+                enum.z3mcs(rep, ex, cls)
     wrappers.shortcut_guard(rep, ex)
     wrappers.shortcut_dominance(rep, ex)
     part.check_all(rep, ex)
@@ -87,6 +89,8 @@ def C04(rep, prog, tier):
             mcsops.lex_ties(rep, ex, be)
             mcsops.w_entry(rep, ex, be, strict=True, extended=False, prefix="LEX", n_objects=2)
             mcsops.lex_strict_shortcuts(rep, ex, be)
+            if name == "z3":
+                enum.z3mcs(rep, ex, cls)
     wrappers.shortcut_guard(rep, ex)
     wrappers.shortcut_dominance(rep, ex)
     part.check_all(rep, ex)
